@@ -31,7 +31,7 @@ func thorough(o options, ps *PropSpec, ruleIDs []string, rev *Reviewed, base []*
 	cfgs := [][]string{{"GOOS=windows", "GOARCH=amd64"}, {"GOOS=darwin", "GOARCH=arm64"}, {"GOOS=linux", "GOARCH=386"}}
 	var cfgOut []map[string]interface{}
 	for _, env := range cfgs {
-		p, err := Load(LoadOpts{Dir: o.repo, Env: env})
+		p, err := Load(LoadOpts{Dir: o.repo, Env: env, Verif: o.verif})
 		entry := map[string]interface{}{"env": strings.Join(env, " ")}
 		if err != nil {
 			entry["error"] = err.Error()
